@@ -356,6 +356,19 @@ GROUPS = {
         nontrivial='histories with at least three gets; all schedules',
         functions=['AddrMap::{default, get, lookup}', 'AddrMapInner::default'],
     ),
+    # the dispatch the Kani harnesses of C19 leave undecided
+    'ip_dispatch_bx': dict(
+        unit='ip_dispatch.rs', props=['C19'],
+        bounds=dict(quick=['3', '2'], thorough=['4', '3']),
+        space='every set of at most {0} bind configurations from a pool of 8 (IPv4: the wildcard default route, a /8, a /16 inside it, a /24; IPv6: the wildcard default route, '
+              'two link-local /128 on scopes 2 and 3, a global /32), given to bind in pool order and reversed, then every sequence of at most {1} datagrams from 16 — IPv4 / IPv6 '
+              'destinations inside and outside the prefixes, link-local destinations on scopes 2, 3, 4, with and without a source address (matching a socket, matching none, of '
+              'the other family), two relay paths (one unknown), two custom transports (one unknown); after every datagram the transport that was handed it is compared with an '
+              'independent statement of the rule. Sockets, relay and custom senders are recording shims; binding never fails here',
+        nontrivial='at least two sockets and two datagrams',
+        functions=['TransportsSender::poll_send', 'IpTransports::{bind, create_sender}', 'IpTransportsSender accessors (pulled in on demand)', 'IpSender::{is_valid_send_addr, is_valid_default_addr}',
+                   'ip::Config::{is_ipv4, is_ipv6, prefix_len, is_default, is_required, is_valid_send_addr, is_valid_default_addr}'],
+    ),
     # second line behind the Verus unit hooks
     'hooks_bx': dict(
         unit='hooks.rs', props=['C42'],
@@ -435,7 +448,7 @@ def run_group(g, prop, tier='quick', only=None):
         extra_tail = ''
         auto = []
         std_imported = set()
-        for _round in range(4):
+        for _round in range(7):
             old_mode = rustlex.VERUS_MODE
             try:
                 text, regions, log, unit = extract.generate(os.path.join(HERE, 'units', d['unit']), extra_tail or None)
@@ -479,7 +492,7 @@ def run_group(g, prop, tier='quick', only=None):
                         item = source_type_item(name, regions)
                         if item:
                             std_imported.add(name)
-                            extra_tail += f'\n//@item {item[0]} {item[1]} {name} stripattrs derive=Debug,Clone\n'
+                            extra_tail += f'\n//@item {item[0]} {item[1]} {name} stripattrs derive={item[2]}\n'
                             std_added = True
             # ... or rely on a conversion (`impl From<..> for T`) that the change added next to the code under test
             for dd in diags:
@@ -491,9 +504,9 @@ def run_group(g, prop, tier='quick', only=None):
                             std_imported.add(key)
                             extra_tail += '\n// conversion added by a change, taken verbatim from the source file\n' + blk + '\n'
                             std_added = True
-            if std_added and _round < 3:
+            if std_added and _round < 6:
                 continue
-            if not missing or _round == 3:
+            if not missing or _round == 6:
                 errs = [dd.get('message', '') for dd in diags if dd.get('level') == 'error']
                 res['reason'] = 'rustc rejected the extracted text (changed code uses something the shims lack): ' + ' | '.join(errs)[:600]
                 res['tool_output'] = [dd.get('rendered', '') for dd in diags if dd.get('level') == 'error'][:4]
@@ -620,7 +633,11 @@ def source_type_item(name, regions):
             continue
         m = re.search(r'^\s*(?:pub(?:\([a-z]+\))?\s+)?(enum|struct)\s+' + re.escape(name) + r'\b', txt, re.M)
         if m:
-            return rel, m.group(1)
+            # std derives the source gives the type are kept (comparisons, hashing, Default); others (serde, derive_more ..) are not
+            head = txt[max(0, m.start() - 400):m.start()]
+            dm = re.findall(r'#\[derive\(([^)]*)\)\]', head.split('}')[-1])
+            std = [d for d in ('Copy', 'PartialEq', 'Eq', 'Hash', 'PartialOrd', 'Ord', 'Default') if any(re.search(r'\b' + d + r'\b', x) for x in dm)]
+            return rel, m.group(1), ','.join(['Debug', 'Clone'] + std)
     return None
 
 
